@@ -115,6 +115,13 @@ var c09Sels = []c09Val{
 	{"key, rpc_address", "two-columns", "", false, 0},
 	{"rpc_address AS a", "alias", "", false, 0},
 	{"now()", "now", "", false, 0},
+	// select clauses that are valid CQL but that the proxy cannot evaluate itself: still its own business (an error from
+	// the proxy), never the backend's
+	{"JSON *", "json", "", false, 0},
+	{"DISTINCT key", "distinct", "", false, 0},
+	{"writetime(rpc_address)", "writetime", "", false, 0},
+	{"CAST(key AS text)", "cast", "", false, 0},
+	{"token(key)", "token", "", false, 0},
 }
 
 const (
@@ -128,7 +135,7 @@ const (
 var c09Trails = []string{"none", "where", "limit", "allow-filtering", "semicolon"}
 
 // the "other" statement kinds, chosen by the selector coordinate
-var c09Others = []string{"batch", "create-table", "alter-table", "grant", "create-mv", "list-permissions"}
+var c09Others = []string{"batch", "create-table", "alter-table", "grant", "create-mv", "list-permissions", "create-trigger", "create-index", "create-table-2", "revoke", "list-permissions-2"}
 
 var c09SysTables = map[string]bool{"local": true, "peers": true, "peers_v2": true, "schema_keyspaces": true,
 	"schema_columnfamilies": true, "schema_columns": true, "schema_usertypes": true}
@@ -266,6 +273,14 @@ func (t c09Tuple) text(lit string, tokenised, marker bool) string {
 			return "ALTER TABLE " + qt + " WITH comment='" + lit + "'" + semi
 		case "grant":
 			return "GRANT SELECT ON TABLE " + qt + " TO '" + lit + "'" + semi
+		case "create-trigger":
+			return "CREATE TRIGGER IF NOT EXISTS trg1 ON " + qt + " USING '" + lit + "'" + semi
+		case "create-index":
+			return "CREATE CUSTOM INDEX IF NOT EXISTS ON " + qt + " (v) USING '" + lit + "'" + semi
+		case "create-table-2":
+			return "CREATE TABLE IF NOT EXISTS " + qt + " (key text PRIMARY KEY) WITH compaction={'class':'" + lit + "'}" + semi
+		case "revoke":
+			return "REVOKE SELECT ON TABLE " + qt + " FROM '" + lit + "'" + semi
 		case "create-mv":
 			return "CREATE MATERIALIZED VIEW IF NOT EXISTS mv1 AS SELECT * FROM " + qt + " WHERE key IS NOT NULL AND key='" + lit + "' PRIMARY KEY (key)" + semi
 		default:
